@@ -1,6 +1,6 @@
 (* C19 - heartbeats detect dead peers and never kill live ones (engine timing logic). *)
 From RZ Require Import Base.Prelude Base.Stepper Model.Codec Proofs.CodecProofs Model.Engine
-  Proofs.EngineProofs Proofs.EngineHeartbeat.
+  Proofs.EngineProofs Proofs.EngineHeartbeat Model.HbActor Proofs.HbActorProofs.
 Local Open Scope N_scope.
 
 (* the complete decision rule of on_tick, for every configuration, state and time *)
@@ -86,6 +86,38 @@ Theorem C19_traffic_keeps_alive : forall cfg g now ivl,
   e_tick cfg g now = (g, []).
 Proof. exact traffic_keeps_alive. Qed.
 
+(* ---------- the session actor's two timers around the engine (Model/HbActor.v) ---------- *)
+(* the session gives up with Timeout only at a tick or at its backstop timer, and only when a PING has been
+   outstanding for the whole window (HEARTBEAT_TIMEOUT; 30 s for the backstop when the option is unset) *)
+Theorem C19_session_timeout_not_early : forall cfg s e,
+  a_fatal s = None -> a_fatal (fst (a_step cfg s e)) = Some ETimeout ->
+  exists now p, (e = ATick now \/ e = ADeadline now) /\
+    h_waiting (g_hb (a_eng s)) = true /\ h_last_ping (g_hb (a_eng s)) = Some p /\
+    (match e with ATick _ => exists t, c_hb_timeout cfg = Some t /\ t <= now - p | _ => hb_window cfg <= now - p end).
+Proof. exact a_timeout_not_early. Qed.
+Theorem C19_session_dead_peer_closed_at_deadline : forall cfg s p now,
+  a_fatal s = None -> h_waiting (g_hb (a_eng s)) = true -> h_last_ping (g_hb (a_eng s)) = Some p ->
+  p + hb_window cfg <= now ->
+  a_fatal (fst (a_step cfg s (ADeadline now))) = Some ETimeout /\ snd (a_step cfg s (ADeadline now)) = [OErr ETimeout].
+Proof. exact a_dead_peer_closed_at_deadline. Qed.
+Theorem C19_session_deadline_not_due : forall cfg s p now,
+  a_fatal s = None -> h_waiting (g_hb (a_eng s)) = true -> h_last_ping (g_hb (a_eng s)) = Some p ->
+  now < p + hb_window cfg -> a_step cfg s (ADeadline now) = (s, []).
+Proof. exact a_deadline_not_due. Qed.
+Theorem C19_session_dead_peer_closed_at_tick : forall cfg s t p now,
+  a_fatal s = None -> hb_active (a_eng s) -> c_hb_timeout cfg = Some t ->
+  h_waiting (g_hb (a_eng s)) = true -> h_last_ping (g_hb (a_eng s)) = Some p -> p + t <= now ->
+  a_fatal (fst (a_step cfg s (ATick now))) = Some ETimeout.
+Proof. exact a_dead_peer_closed_at_tick. Qed.
+(* whatever happens after the PING at p - local writes, inbound frames that are not a PONG, ticks and backstop polls
+   before their deadlines - the session is over (for whatever reason) once the backstop is polled at or after
+   p + window: the window is anchored at the PING, not at the last activity *)
+Theorem C19_session_dead_peer_closed_despite_traffic : forall cfg p now es s,
+  a_fatal s = None -> h_waiting (g_hb (a_eng s)) = true -> h_last_ping (g_hb (a_eng s)) = Some p ->
+  a_unanswered_run cfg s es = true -> p + hb_window cfg <= now ->
+  a_fatal (fst (a_run cfg s (es ++ [ADeadline now]))) <> None.
+Proof. exact a_dead_peer_closed_despite_traffic. Qed.
+
 (* every PING is answered by a PONG with the same context bytes, as its own frame *)
 Theorem C19_pong_echoes_context : forall cfg st ttl ctx rest,
   e_phase st = PData -> e_version st <> Some V2 ->
@@ -130,3 +162,17 @@ Example C19_example_writes :
   hb_active (fst (e_run cfg g1 [IWrote 1300; IWrote 1500; ITick 1600; IWrote 1650])) /\
   e_pong_deadline cfg (fst (e_run cfg g1 [IWrote 1300; IWrote 1500; ITick 1600; IWrote 1650])) = Some 1700.
 Proof. vm_compute. repeat split; try reflexivity; congruence. Qed.
+
+Example C19_example_session :
+  let cfg := {| c_server := true; c_stype := s_PULL; c_rid := None; c_sec_enabled := false; c_allow_v2 := true;
+                c_use_plain := false; c_use_curve := false; c_use_noise := false; c_plain_user := None;
+                c_plain_pass := None; c_opaque_ok := false; c_hb_ivl := Some 1000; c_hb_timeout := Some 500;
+                c_cork := false; c_zc := false; c_maxsz := (-1)%Z |} in
+  let hs := (255 :: repeat 0 8 ++ [127; 3; 0] ++ mech_field s_NULL ++ [0] ++ repeat 0 31) ++
+            enc_codec (cmd_frame ((5 :: s_READY) ++ enc_prop s_SocketType s_PUSH)) in
+  let s1 := fst (a_run cfg (a_new 0) [ANet hs 0; ATick 1200; AWrote 1201]) in
+  let tr := [AWrote 1300; ADeadline 1650; AWrote 1680; ATick 1690] in
+  a_fatal s1 = None /\ h_last_ping (g_hb (a_eng s1)) = Some 1200 /\ a_unanswered_run cfg s1 tr = true /\
+  a_fatal (fst (a_run cfg s1 tr)) = None /\
+  a_fatal (fst (a_run cfg s1 (tr ++ [ADeadline 1700]))) = Some ETimeout.
+Proof. vm_compute. repeat split; reflexivity. Qed.
